@@ -44,6 +44,7 @@ DATASETS = {
     "neg6": ([-6, -5, -3, -2, -1.5, -0.5], [10.2, 7.9, 3.1, 2.2, 1.4, 0.3]),
     "lin_decimal5": ([0.1, 0.7, 1.3, 2.9, 3.1], [0.1 * 3 + 0.7, 0.7 * 3 + 0.7, 1.3 * 3 + 0.7,
                                                   2.9 * 3 + 0.7, 3.1 * 3 + 0.7]),
+    "repeats8": ([1, 1, 2, 2, 3, 3, 4, 5], [0.9, 1.3, 2.8, 3.1, 4.7, 5.2, 6.4, 8.9]),
     "meeus": ([73.0, 38.0, 35.0, 42.0, 78.0, 68.0, 74.0, 42.0, 52.0, 54.0, 39.0, 61.0],
               [90.4, 125.3, 161.8, 143.4, 52.5, 50.8, 71.5, 152.8, 131.3, 98.5, 144.8, 78.1]),
 }
@@ -321,6 +322,12 @@ DEGENERATE = [
     {"xs": [1, 2, 1, 2], "ys": [1, 2, 3, 5], "calls": ["quadratic"]},
     {"xs": [0.1, 0.2, 0.1, 0.2, 0.1], "ys": [1, 2, 3, 5, 4], "calls": ["quadratic"]},
     {"xs": [2.0, 2.0], "ys": [1.0, 3.0], "calls": ["corr", "linear"]},
+    {"xs": [1, 2, 3, 4, 5], "ys": [123.456] * 5, "calls": ["corr"]},
+    {"xs": [1e3 / 7] * 4, "ys": [1, 2, 3, 4], "calls": ["corr", "linear", "quadratic"]},
+    {"xs": [1000.0 - 0.1] * 3, "ys": [1, 2, 4], "calls": ["corr", "linear", "quadratic"]},
+    {"xs": [-512.3] * 5, "ys": [1, 2, 4, 3, 0], "calls": ["corr", "linear", "quadratic"]},
+    {"xs": [999.9, 999.8, 999.9, 999.8, 999.9], "ys": [1, 2, 3, 5, 4], "calls": ["quadratic"]},
+    {"xs": [1, 2, 3, 4], "ys": [-987.654321] * 4, "calls": ["corr"]},
     {"xs": [1, 2, 3], "ys": [1, 4, 9], "calls": ["general_dependent"]},
     {"xs": [1, 2, 3, 4], "ys": [1, 4, 9, 11], "calls": ["general_null"]},
 ]
